@@ -7,7 +7,7 @@ HERE = os.path.dirname(os.path.abspath(__file__))
 CHECKS = {
  "C06": (True, "payflow", "model_checking",
    "bounded exhaustive histories of commitment updates on two channels of one real node with a ghost ledger of accepted contents",
-   "Every history of <= 4 (6) letters over: approve a keysend for H1, per channel validate-holder / revoke / sign-counterparty / counterparty-revokes with HTLC sets over the approved hash H1 (half, full, over the allowance, two parts) and the unapproved hash H2 (alone, or covered by incoming value), preimage disclosure, restart; plus a narrower counterparty-side-only search to depth 6, a search that starts with the first part of the payment locked into both commitments, and one in which the approval is declined by the node-wide velocity limit (a declined hash must stay unbacked). After every accepted update the ledger inequality of the statement is evaluated in u128, and an accepted update that introduces an unbacked outgoing HTLC is a violation.",
+   "Every history of <= 4 (6) letters over: approve a keysend for H1, per channel validate-holder / revoke / sign-counterparty / counterparty-revokes with HTLC sets over the approved hash H1 (half, full, over the allowance, two parts) and the unapproved hash H2 (alone, or covered by incoming value), preimage disclosure, force close of a channel, restart; plus a narrower counterparty-side-only search to depth 6, a search that starts with the first part of the payment locked into both commitments, and one in which the approval is declined by the node-wide velocity limit (a declined hash must stay unbacked). After every accepted update the ledger inequality of the statement is evaluated in u128, and an accepted update that introduces an unbacked outgoing HTLC is a violation.",
    "In-flight value is defined on the two current commitments of each channel (max of views outgoing, min of views incoming), as fixed in DESIGN 3.4.",
    "3.4"),
  "C17": (True, "macenum", "model_checking",
@@ -22,7 +22,7 @@ CHECKS = {
    "7.3"),
  "C12": (True, "velocity+nodevel", "model_checking",
    "explicit-state search over the real VelocityControl (closes per config) and bounded exhaustive histories of approvals, clock advances and restarts on a real node, against a sliding-window oracle",
-   "Component: for limits {0, 100, 2^64-2}, 1-4 buckets and the three interval types, every sequence of insert(now+dt, amount) over bucket-edge time deltas and limit-edge amounts up to the depth bound / state closure, with the sum of approved amounts in any (N-1)-bucket window compared with the limit in u128. Node: every history of <= 5 (7) letters (keysend / invoice / on-chain fee at limit edges, clock +1/+11/+12 buckets, restart, the most recent request presented again unchanged) on a real node with hourly limits; the same oracle on the log of approvals, across restarts.",
+   "Component: for limits {0, 100, 2^64-2}, 1-4 buckets and the three interval types, every sequence of insert(now+dt, amount) over bucket-edge time deltas and limit-edge amounts up to the depth bound / state closure, with the sum of approved amounts in any (N-1)-bucket window compared with the limit in u128. Node: every history of <= 5 (7) letters (keysend / invoice / on-chain fee at limit edges, clock +1/+11/+12 buckets, restart, the most recent request presented again unchanged, reload of the unchanged policy) on a real node with hourly limits; the same oracle on the log of approvals, across restarts.",
    "ManualClock; non-decreasing time (as in the statement).",
    "5.3"),
  "C15": (True, "nodemc", "model_checking",
@@ -72,7 +72,7 @@ CHECKS = {
    "7.1"),
  "C04": (True, "c04", "model_checking",
    "bounded exhaustive enumeration: setup variants x contents, both entry points on twin worlds, every single (thorough: pair of) field mutation of the raw transaction, witness scripts and semantic arguments on a fresh real signer; oracle = harness-assembled BOLT-3 transaction + secp256k1 verification",
-   "16 (12 quick) setup variants (commitment type, direction, delay pair, funding outpoint) x 7-8 contents (no HTLC, offered, received, two identical received, both, HTLC just above / below the trim limit, three HTLCs): the semantic entry point signs and every commitment / HTLC signature is verified against the transaction the harness assembles from the setup, the basepoints and the content; the raw entry point must accept that transaction on a twin signer and return the same signature; then every mutation (version, locktime, sequence, prevout txid/vout, input witness / script_sig, each output value +-1/+1000, script byte flips and truncation, swapped / dropped / duplicated / extra outputs, extra input, witness-script flips / removal / swaps, fee rate, commitment number, per-commitment point, HTLC list edits) is presented to the raw entry point: acceptance requires byte equality with the canonical transaction of the content the presented arguments imply and a signature that verifies against it.",
+   "24 (20 quick) setup variants (commitment type, direction, delay pair inside and on both edges of the policy range, funding outpoint) x 7-8 contents (no HTLC, offered, received, two identical received, both, HTLC just above / below the trim limit, three HTLCs): the semantic entry point signs and every commitment / HTLC signature is verified against the transaction the harness assembles from the setup, the basepoints and the content; the raw entry point must accept that transaction on a twin signer and return the same signature; then every mutation (version, locktime, sequence, prevout txid/vout, input witness / script_sig, each output value +-1/+1000, script byte flips and truncation, swapped / dropped / duplicated / extra outputs, extra input, witness-script flips / removal / swaps, fee rate, commitment number, per-commitment point, HTLC list edits) is presented to the raw entry point: acceptance requires byte equality with the canonical transaction of the content the presented arguments imply and a signature that verifies against it.",
    "Canonical transaction built with LDK's BOLT-3 builder from parameters assembled by the harness (not Channel's helpers); LDK and secp256k1 trusted. Panics of the signer (outputs above the channel value) are counted, not treated as acceptance.",
    "4.1"),
  "C05": (True, "c05", "model_checking",
@@ -87,12 +87,12 @@ CHECKS = {
    "4.3"),
  "C08": (True, "c08", "model_checking",
    "deviation-bounded exhaustive enumeration (d=1 quick, d=2 thorough) of on-chain transactions on fresh real nodes through Node::check_onchain_tx and Approve::handle_proposed_onchain (recording approver), under checked and wrapping arithmetic, against an independent output classifier and a u128 fee bound",
-   "Bases: a wallet spend (change + allowlisted destination), a single-channel funding with change, a two-channel funding from two inputs x 2 policies (max fee rate 333333 / 5000 sat per kw, daily / hourly 3000 sat fee velocity) x 3 allowlists (foreign address; + the wallet's own change address; + a foreign xpub and the node's own xpub) x 3 entry points (check_onchain_tx, handle_proposed_onchain with a declining / an approving approver). Deviations: each output replaced by every other class (wallet native / wrapped / taproot at the right, wrong or no path; allowlisted script with and without path; xpub-derived at the right, wrong or no path; foreign with and without path; funding output breaking one rule: value +-1 / +100000, script of other keys, inbound, push, initial commitment not counter-signed, channel already advanced), outputs added / dropped / zero / 2^63 / 2^64-1, a third channel funded, segwit and non-segwit inputs added, segwit flags cleared, input values 0 / 2^64-1, version 1 / 3, the non-beneficial value set to 0, around max_rate x weight / 1000 for the unsigned, the signer's and the reference's weight, to every output value (+fee, x2), to 2^32 and 2^64 wrap candidates, the request repeated at once, after an hour, and (22 requests) until the allowance is used up and then again and again one bucket later; a funding base with an unknown destination is run with a declining and an approving operator. Channels are really created, set up on the transaction's outpoint and (unless the deviation says otherwise) their initial holder commitment validated with harness signatures.",
+   "Bases: a wallet spend (change + allowlisted destination), a single-channel funding with change, a two-channel funding from two inputs x 2 policies (max fee rate 333333 / 5000 sat per kw, daily / hourly 3000 sat fee velocity) x 3 allowlists (foreign address; + the wallet's own change address; + a foreign xpub and the node's own xpub) x 3 entry points (check_onchain_tx, handle_proposed_onchain with a declining / an approving approver). Deviations: each output replaced by every other class (wallet native / wrapped / taproot at the right, wrong or no path; allowlisted script with and without path; xpub-derived at the right, wrong or no path; foreign with and without path; funding output breaking one rule: value +-1 / +100000, script of other keys, inbound, push, initial commitment not counter-signed, channel already advanced), outputs added / dropped / zero / 2^63 / 2^64-1, a third channel funded, segwit and non-segwit inputs added, segwit flags cleared, input values 0 / 2^64-1, version 1 / 3, the non-beneficial value set to 0, around max_rate x weight / 1000 for the unsigned, the signer's and the reference's weight, to every output value (+fee, x2), to 2^32 and 2^64 wrap candidates, the request repeated at once, after an hour, and (22 requests) until the allowance is used up and then again and again one bucket later, or after a reload of the unchanged policy; a funding base with an unknown destination is run with a declining and an approving operator. Channels are really created, set up on the transaction's outpoint and (unless the deviation says otherwise) their initial holder commitment validated with harness signatures.",
    "A pass requires the reference to hold; a report of unknown destinations must list exactly the reference-unknown outputs, and the approver must be consulted exactly then. What an operator then approves is outside the property.",
    "4.4"),
  "C09": (True, "c09", "model_checking",
    "exhaustive enumeration of the full product of field alphabets of sweep requests, and base + every single (thorough: pair of) mutation of second-level HTLC transactions, on a real channel per commitment type; reference envelope + BOLT-3 HTLC transaction built by the harness + secp256k1 verification",
-   "Sweeps (sign_delayed_sweep, sign_counterparty_htlc_sweep with offered and received redeemscripts, sign_justice_sweep): commitment type x version {1,2,3} x 13 locktimes (0, height, height+2, +3, +145, HTLC expiry, +1, +145, 499999999, 500000000, past and future timestamps, 2^32-1) x 11 sequences of the signed input (delay-1, delay, delay+1, 0, 1, 0xfffffffd/e/f, 65535, time-flagged, delay+145) x another input (absent, or before/after the signed one with its own sequence) x 9 output patterns (wallet, wallet at another path, allowlisted, foreign, and two-output mixes in both orders): 75k (quick) / 290k requests. HTLC transactions (sign_holder_htlc_tx, sign_counterparty_htlc_tx; offered and received; both commitment types): version, locktime, sequence, prevout, fee at min-2 / min / max / max+2 / 0 / 2^32-wrap, output value +-1, output script with another delay / revocation key / delayed key / foreign, extra input / output, amount +-1, other or junk redeemscript, other per-commitment point. A signed sweep must satisfy the envelope; a signed HTLC transaction must have the sighash of the harness-built BOLT-3 transaction for the negotiated delay and keys at an in-range fee rate, and the signature must verify against it under the node's HTLC key with the channel type's sighash flag.",
+   "Sweeps (sign_delayed_sweep, sign_counterparty_htlc_sweep with offered and received redeemscripts, sign_justice_sweep): commitment type x version {1,2,3} x 13 locktimes (0, height, height+2, +3, +145, HTLC expiry, +1, +145, 499999999, 500000000, past and future timestamps, 2^32-1) x 11 sequences of the signed input (delay-1, delay, delay+1, 0, 1, 0xfffffffd/e/f, 65535, time-flagged, delay+145) x another input (absent, or before/after the signed one with its own sequence) x 9 output patterns (wallet, wallet at another path, allowlisted, foreign, and two-output mixes in both orders): 75k (quick) / 290k requests. HTLC transactions (sign_holder_htlc_tx, sign_counterparty_htlc_tx; offered and received; both commitment types): version, locktime, sequence, prevout, fee at min-2 / min / max / max+2 / 0 / 2^32-wrap, output value +-1, output script with another delay / revocation key / delayed key / foreign, extra input / output, amount +-1, other or junk redeemscript, other per-commitment point. A signed sweep must satisfy the envelope and its signature must verify as SIGHASH_ALL over the presented transaction under one of the channel's keys; a signed HTLC transaction must have the sighash of the harness-built BOLT-3 transaction for the negotiated delay and keys at an in-range fee rate, and the signature must verify against it under the node's HTLC key with the channel type's sighash flag.",
    "Qualitative bounds use a generous envelope (e.g. locktime <= height + 144) so that removing a check is caught but retuning a constant is not; the parameter-only sign_holder_htlc_tx_phase2 is out of scope as in the statement.",
    "4.5"),
  "C19": (True, "wirert", "model_checking",
